@@ -279,23 +279,7 @@ func runC04(r *an.Run) {
 			}
 		})
 
-	r.Obl("state-advance-needs-valid-secret", "GUARD",
-		"ReceiveRevocation reaches AdvanceCommitChainTail (and any write of RemoteCurrentRevocation/RemoteNextRevocation) only after RevocationStore.AddNextEntry accepted the secret and the commitment point derived from it equals the current remote revocation point",
-		"a state recorded as revoked without a valid secret cannot be punished", 4,
-		func(o *an.Obl) {
-			f := p.Func(lw + "LightningChannel.ReceiveRevocation")
-			add := f.Calls(an.CalleeNamed("AddNextEntry"), false)
-			adv := f.Calls(an.CalleeIs("chanstate.OpenChannel.AdvanceCommitChainTail"), false)
-			writes := append(f.Assigns(an.Field("chanstate.OpenChannel", "RemoteCurrentRevocation", nil), false),
-				f.Assigns(an.Field("chanstate.OpenChannel", "RemoteNextRevocation", nil), false)...)
-			targets := append(append([]an.Site{}, adv...), writes...)
-			mustPass(o, f, "RevocationStore.AddNextEntry", add, an.OkErrNil, targets)
-			eq := an.Truth(an.CallNamed("IsEqual", an.CallTo("input.ComputeCommitmentPoint", nil), an.FieldPath(nil, "RemoteCurrentRevocation")), true, "ComputeCommitmentPoint(secret).IsEqual(RemoteCurrentRevocation)")
-			guardedAll(o, f, targets, eq)
-			if len(writes) != 2 {
-				o.FailAt(f.ID+"#revocation-point-writes", f.Where(f.Body.Pos()), "expected the two revocation-point rotations, found %d writes", len(writes))
-			}
-		})
+	revocationAcceptance(r)
 
 	r.Obl("state-hint-obfuscator-order", "MIRROR",
 		"every DeriveStateHintObfuscator call passes the initiator's payment base point first: (Local, Remote) only below IsInitiator, (Remote, Local) only below !IsInitiator",
@@ -689,4 +673,30 @@ func transferPairs(f *an.Func, item, box string) map[string][]string {
 		out[key] = list
 	}
 	return out
+}
+
+// revocationAcceptance: a counterparty secret advances the remote chain only
+// when the store accepted it and it opens the current revocation point.
+// Shared by C04 (the state must be punishable) and C06 (inconsistent secrets
+// are rejected).
+func revocationAcceptance(r *an.Run) {
+	p := r.Prog
+	r.Obl("state-advance-needs-valid-secret", "GUARD",
+		"ReceiveRevocation reaches AdvanceCommitChainTail (and any write of RemoteCurrentRevocation/RemoteNextRevocation) only after RevocationStore.AddNextEntry accepted the secret and the commitment point derived from it equals the current remote revocation point",
+		"a state recorded as revoked without a valid secret cannot be punished", 4,
+		func(o *an.Obl) {
+			f := p.Func(lw + "LightningChannel.ReceiveRevocation")
+			add := f.Calls(an.CalleeNamed("AddNextEntry"), false)
+			adv := f.Calls(an.CalleeIs("chanstate.OpenChannel.AdvanceCommitChainTail"), false)
+			writes := append(f.Assigns(an.Field("chanstate.OpenChannel", "RemoteCurrentRevocation", nil), false),
+				f.Assigns(an.Field("chanstate.OpenChannel", "RemoteNextRevocation", nil), false)...)
+			targets := append(append([]an.Site{}, adv...), writes...)
+			mustPass(o, f, "RevocationStore.AddNextEntry", add, an.OkErrNil, targets)
+			eq := an.Truth(an.CallNamed("IsEqual", an.CallTo("input.ComputeCommitmentPoint", nil), an.FieldPath(nil, "RemoteCurrentRevocation")), true, "ComputeCommitmentPoint(secret).IsEqual(RemoteCurrentRevocation)")
+			guardedAll(o, f, targets, eq)
+			if len(writes) != 2 {
+				o.FailAt(f.ID+"#revocation-point-writes", f.Where(f.Body.Pos()), "expected the two revocation-point rotations, found %d writes", len(writes))
+			}
+		})
+
 }
